@@ -170,6 +170,18 @@ def gen_cases(ctx: Ctx):
                 ends.append(pos)
             reads = cuts_to_reads(s, ends + [rng.randrange(1, max(2, len(s)))])
         add(ps, kind, s, reads)
+    # many complete frames in ONE read (no per-call limit on how many frames a read may carry), and the
+    # same stream in two and three reads; small payloads keep this cheap enough for the quick tier
+    for nfr in ([17, 33, 70] if ctx.quick else [17, 33, 70, 200, 513]):
+        ps = [payload(rng, rng.choice([1, 1, 2, 7])) for _ in range(nfr)]
+        _, s = tamper(rng, M, key_in, other, ps, "none")
+        add(ps, "none", s, [s])
+        add(ps, "none", s, cuts_to_reads(s, [len(s) // 2]))
+        add(ps, "none", s, cuts_to_reads(s, [19, len(s) - 1]))
+    for nfr in [17, 40]:  # ... with full-size frames (what a large request body looks like)
+        ps = [payload(rng, 1024) for _ in range(nfr)] + [payload(rng, 1)]
+        _, s = tamper(rng, M, key_in, other, ps, "none")
+        add(ps, "none", s, [s])
     # long random streams (thorough)
     if not ctx.quick:
         for _ in range(30):
@@ -499,6 +511,171 @@ def run_upgrade_boundary(ctx: Ctx, hc):
             ctx.disagree("upgrade-boundary", {"leftover": i["kind"]}, m, i)
 
 
+def run_rekey(ctx: Ctx, hc):
+    """A second pair-verify completed INSIDE a secured session replaces the session: from then on the
+    authentic frames are the ones the controller seals under the new key from counter 0 (they must be
+    delivered), and a frame still produced under the superseded key, or under the new key with the old
+    counter, is 'produced under another key or counter' (never delivered, connection closed).
+    Real protocol + handler + pair-verify; mock-AEAD runs are also compared with the model (`rekey`)."""
+    from cryptography.hazmat.primitives.asymmetric import ed25519
+
+    from props.c05 import IDENT, build_accessory, split_all
+    from ref import pv_client
+    from rig import Rig
+
+    rng = ctx.rng
+    st = ctx.stats
+    lines, impls = [], []
+    afters = ["k2", "k2-split", "k1-stale", "k1-then-k2", "k2-old-counter", "k2-then-k1"]
+    cases = [(a, n1, m) for a in afters for n1 in (0, 2) for m in ("mock", "real")]
+    cases += [(rng.choice(afters), rng.choice([0, 1, 3]), rng.choice(["mock", "real"])) for _ in range(ctx.n(12, 300))]
+    for after, n1, mode in cases:
+        cipher_cls = ref.Mock if mode == "mock" else ref.Real
+        patches = []
+        if mode == "mock":
+            p = mock.patch.object(hc, "ChaCha20Poly1305", PyMock)
+            p.start()
+            patches.append(p)
+        rig = Rig()
+        rep = {"kind": "rekey", "after": after, "requests_in_first_session": n1, "aead": mode}
+        handed, sent1, tr = [], [], None
+        try:
+            driver = rig.driver
+            acc, chars = build_accessory(driver)
+            ltsk = ed25519.Ed25519PrivateKey.generate()
+            driver.state.add_paired_client(IDENT, pv_client.pub_bytes(ltsk), b"\x01")
+            proto, tr = rig.connect()
+            iid = driver.accessory.iid_manager.get_iid(chars[0])
+            dispatched = []
+            orig_d = proto.handler.dispatch
+
+            def spy(request, body=None, _o=orig_d, _d=dispatched):
+                _d.append(bytes(request.target))
+                return _o(request, body)
+
+            proto.handler.dispatch = spy
+            # session 1: plaintext pair-verify
+            v1 = pv_client.Verifier(IDENT, ltsk)
+            proto.data_received(pv_client.http_post("/pair-verify", v1.m1()))
+            msgs, _ = ref.split_messages(tr.data())
+            proto.data_received(pv_client.http_post("/pair-verify", v1.m3(msgs[-1][3])))
+            rig.loop.settle()
+            if tr.closed or proto.hap_crypto is None:
+                ctx.fail("C04:session-not-established", "an honest pair-verify did not secure the connection", rep)
+                continue
+            marks, shared = {0: len(tr.data())}, [v1.shared]
+            k1 = ref.hkdf(v1.shared, ref.SALT, ref.C2A)
+            c1 = cipher_cls(k1)
+            orig_r = proto.conn.receive_data
+            proto.conn.receive_data = lambda d, _o=orig_r: (handed.append(bytes(d)), _o(d))[1]
+            reads1, ctr1 = [], 0
+
+            def send1(plain):
+                nonlocal ctr1
+                sent1.append(plain)
+                data = b"".join(ref.seal_frames(c1, [plain], start=ctr1))
+                ctr1 += 1
+                reads1.append(data)
+                proto.data_received(data)
+                rig.loop.settle()
+
+            def get(tag):
+                return b"GET /characteristics?id=1.%d&s=%s HTTP/1.1\r\nHost: a\r\n\r\n" % (iid, tag)
+
+            want1, n0 = [], len(dispatched)
+            for i in range(n1):
+                send1(get(b"one-%d" % i))
+                want1.append(b"/characteristics?id=1.%d&s=one-%d" % (iid, i))
+            # session 2: pair-verify again, carried in frames of session 1
+            v2 = pv_client.Verifier(IDENT, ltsk)
+            send1(pv_client.http_post("/pair-verify", v2.m1()))
+            resp = [m for m in split_all(tr, marks, shared, cipher_cls)[0] if m[0] == "response"]
+            send1(pv_client.http_post("/pair-verify", v2.m3(resp[-1][3])))
+            out1 = b"".join(handed)
+            handed.clear()
+            closed_before = tr.closed
+            k2 = ref.hkdf(v2.shared, ref.SALT, ref.C2A)
+            c2 = cipher_cls(k2)
+            n_disp1 = len(dispatched)
+            if dispatched[n0 : n0 + len(want1)] != want1:
+                ctx.fail("C04:requests-not-dispatched", f"first session: dispatched {dispatched} for {want1}", rep)
+            a, b = get(b"two-0"), get(b"two-1")
+            f2 = lambda plain, ctr: b"".join(ref.seal_frames(c2, [plain], start=ctr))  # noqa: E731
+            f1 = lambda plain, ctr: b"".join(ref.seal_frames(c1, [plain], start=ctr))  # noqa: E731
+            if after == "k2":
+                reads2 = [f2(a, 0), f2(b, 1)]
+            elif after == "k2-split":
+                s = f2(a, 0) + f2(b, 1)
+                cut = sorted(rng.sample(range(1, len(s)), 3))
+                reads2 = [s[i:j] for i, j in zip([0] + cut, cut + [len(s)])]
+            elif after == "k1-stale":
+                reads2 = [f1(a, ctr1)]
+            elif after == "k1-then-k2":
+                reads2 = [f1(a, ctr1), f2(b, 0)]
+            elif after == "k2-old-counter":
+                reads2 = [f2(a, ctr1)]
+            else:  # k2-then-k1
+                reads2 = [f2(a, 0), f1(b, ctr1)]
+            stream2 = b"".join(reads2)
+            frames, fail_end, consumed = ref.receive(c2, stream2)
+            n = 0
+            for r in reads2:
+                if tr.closed:
+                    break
+                proto.data_received(r)
+                rig.loop.settle()
+                n += len(r)
+                want = b"".join(p for e, p in frames if e <= n)
+                got = b"".join(handed)
+                if fail_end is not None and n >= fail_end:
+                    if got != want:
+                        ctx.fail("C04:non-authentic-frame-delivered-after-rekey",
+                                 f"after the re-key a frame that is not authentic under the new session ('{after}') reached the HTTP layer "
+                                 f"({len(got)} bytes handed over, {len(want)} authentic)", rep, size=n1 + len(after))
+                    elif not tr.closed:
+                        ctx.fail("C04:not-closed-after-failure", f"connection still open after a frame of another key/counter ('{after}') following a re-key", rep)
+                    break
+                if tr.closed:
+                    ctx.fail("C04:authentic-stream-rejected",
+                             f"after pair-verify completed again inside the session, the controller's authentic frames under the NEW key "
+                             f"(counter 0 onward) were rejected and the connection closed ('{after}')", rep, size=n1 + len(after))
+                    break
+                if got != want:
+                    sig = "C04:complete-frame-not-delivered" if want.startswith(got) else "C04:delivered-bytes-differ"
+                    ctx.fail(sig, f"after a re-key the HTTP layer got {len(got)} of {len(want)} authentic bytes ('{after}')", rep, size=n1 + len(after))
+                    break
+            exp2 = [t for t, (e, _) in zip([x.split(b" ")[1] for x in (a, b)], frames)] if after in ("k2", "k2-split", "k2-then-k1") else []
+            if not ctx.failures and dispatched[n_disp1:] != exp2 and not closed_before:
+                ctx.fail("C04:requests-not-dispatched", f"second session ('{after}'): dispatched {dispatched[n_disp1:]}, authentic requests {exp2}", rep)
+            if mode == "mock":
+                lines.append({"layer": "frame", "op": "rekey", "key1": k1[0], "key2": k2[0],
+                              "reads1": [hx(r) for r in reads1], "reads2": [hx(r) for r in reads2]})
+                impls.append({"closed": tr.closed, "out1": hx(out1), "out2": hx(b"".join(handed)), "after": after, "n1": n1})
+            st.case(["rekey", after, n1, mode], True)
+            st.hit("op", "rekey:" + after)
+            st.hit("outcome", "rekey-closed" if tr.closed else "rekey-open")
+        except (AssertionError, KeyError, IndexError, ValueError, TypeError) as ex:
+            # the reference controller could not go on. Everything it sent so far in the first session was
+            # authentic: judge what the accessory did with THOSE frames; anything else is not C04's business.
+            got, want = b"".join(handed), b"".join(sent1)
+            if tr.closed:
+                ctx.fail("C04:authentic-stream-rejected", f"connection closed on the authentic frames of the first session (reference controller: {type(ex).__name__}: {str(ex)[:120]})", rep)
+            elif got != want:
+                sig = "C04:complete-frame-not-delivered" if want.startswith(got) else "C04:delivered-bytes-differ"
+                ctx.fail(sig, f"first session: the HTTP layer got {len(got)} of {len(want)} authentic bytes (reference controller: {type(ex).__name__}: {str(ex)[:120]})", rep)
+            else:
+                st.hit("outcome", "rekey-aborted:" + type(ex).__name__)
+        finally:
+            for p in patches:
+                p.stop()
+            rig.close()
+    model = run_model_parallel("C04", lines)
+    for m, i in zip(model, impls):
+        st.traces_validated += 1
+        if (m.get("closed"), m.get("out1"), m.get("out2")) != (i["closed"], i["out1"], i["out2"]):
+            ctx.disagree("rekey", {"after": i["after"], "requests_in_first_session": i["n1"]}, _short(m), _short({k: i[k] for k in ("closed", "out1", "out2")}))
+
+
 def _short(x):
     s = str(x)
     return s if len(s) < 200 else s[:200] + f"...<{len(s)} chars>"
@@ -517,6 +694,7 @@ def run(ctx: Ctx):
     run_real_stream(ctx, hc)
     run_protocol_level(ctx, hc)
     run_upgrade_boundary(ctx, hc)
+    run_rekey(ctx, hc)
 
 
 def search(ctx: Ctx):
@@ -532,6 +710,8 @@ def search(ctx: Ctx):
                 judge(ctx, cipher, c, impl_rx(hc, c["reads"]), "mock-rx")
         run_real_stream(ctx, hc)
         run_protocol_level(ctx, hc)
+        run_upgrade_boundary(ctx, hc)
+        run_rekey(ctx, hc)
     finally:
         ctx.tier = saved
         ctx.budget_scale = 1.0
@@ -539,8 +719,8 @@ def search(ctx: Ctx):
 
 def replay(ctx: Ctx, r):
     hc = _mods()
-    if r["kind"] == "upgrade-boundary":
-        run_upgrade_boundary(ctx, hc)
+    if r["kind"] in ("upgrade-boundary", "rekey"):
+        (run_upgrade_boundary if r["kind"] == "upgrade-boundary" else run_rekey)(ctx, hc)
         for f in ctx.failures:
             print("FAILS:", f.signature, f.description)
         print("verdict:", "property violated on this input" if ctx.failures else "holds on this input")
